@@ -14,12 +14,22 @@ func VerifC11_SumCopy() {
 	if vrt.Tier() == 1 {
 		ls = vrtCmdLayouts()
 	}
+	vrtC11SumCopy(ls, 2, true)
+}
+
+// VerifC11_SumCopy2: the 2-level layout with one source file and an existing destination
+// (single-archive selections in the quick tier).
+func VerifC11_SumCopy2() {
+	vrtC11SumCopy([]string{"1s:2s,2s:4s"}, 1, false)
+}
+
+func vrtC11SumCopy(ls []string, nfMax int, allowAbsent bool) {
 	h := vrtCmdHeader(ls, wt.Sum, 0.5)
 	na := len(h.ArchiveInfoList())
 	now := vrtCmdInstant(h, "now")
 	vrtCmdAssumeClock(h, now)
 	vrt.SetClock(uint32(now))
-	nf := 1 + vrt.Choose("files", 2)
+	nf := 1 + vrt.Choose("files", nfMax)
 	names := []string{"a.wsp", "b.wsp"}
 	var paths []string
 	for f := 0; f < nf; f++ {
@@ -27,7 +37,10 @@ func VerifC11_SumCopy() {
 		paths = append(paths, vrt.TempFile("base/item1/"+names[f], img))
 	}
 	base := filepath.Dir(filepath.Dir(paths[0]))
-	destAbsent := vrt.Choose("destAbsent", 2) == 1
+	destAbsent := false
+	if allowAbsent {
+		destAbsent = vrt.Choose("destAbsent", 2) == 1
+	}
 	var dp string
 	if destAbsent {
 		dp = vrt.NoFile("dst/item1/sum.wsp")
